@@ -30,7 +30,7 @@ def V(site, clause, msg, triggers=(), **detail):
 
 def cases(tier, seed):
     out = []
-    names = ['S2', 'S3', 'S3u', 'S5', 'R'] if tier == 'quick' else ['S2', 'S2u', 'S3', 'S3u', 'S5', 'S8', 'R']
+    names = ['S2', 'S3', 'S3u', 'S5', 'R'] if tier == 'quick' else data.THOROUGH
     for dsn in names:
         out.append(('Covariance/%s' % dsn, ('cov', dsn, seed)))
         for lay in ('alphabet', 'all_chunked', 'big_chunks'):
